@@ -388,8 +388,21 @@ def main(prop, tier, seed, replay):
             cl = f[3].split(":")[0][:80]
             if cl not in by_clause or len(f[0]) < len(by_clause[cl][0]):
                 by_clause[cl] = f
+        kinds = {}
+        for f in new_fails:
+            t = f[0].split(" ")
+            k = t[0]
+            if len(t) > 1:
+                try:
+                    d = bytes.fromhex(t[1]) if t[1] != "-" else b""
+                    k += " " + (d.decode("ascii") if 0 < len(d) <= 48 and all(32 <= c < 127 for c in d) else t[1][:16])
+                except ValueError:
+                    k += " " + t[1][:24]
+            k += " :: " + f[3].split(":")[0][:48]
+            kinds[k] = kinds.get(k, 0) + 1
         for cl, f in sorted(by_clause.items()):
             p = write_replay(prop, "input", {"property": prop, "clause": f[3], "case": f[0], "impl_result": f[1],
+                                              "failing_by_kind": dict(sorted(kinds.items(), key=lambda x: -x[1])[:40]),
                                               "model_result": f[2], "seed": seed, "tier": tier,
                                               "failing_cases_total": len(new_fails),
                                               "replay_cmd": f"./check {prop} --replay <this file>"})
